@@ -50,6 +50,70 @@ func checkPointerMemoryBeforeDisk(c *an.Ctx, id string) {
 	c.Min(id, "pointer key writes of the pointer setters", n, 2)
 }
 
+// checkPointerStoreNeedsChange (C17.b): the write loop's pointer steps (advanceHead, recedeTail) load
+// the pointer, walk, and store. They store only when the walk found a different header: an
+// unconditional store writes back what was loaded before the walk, and a DeleteRange that moved the
+// pointer in between (it is the other, legitimate writer) is undone by it.
+func checkPointerStoreNeedsChange(c *an.Ctx, id string) {
+	p := c.P
+	for _, spec := range []struct{ fn, walk, field string }{
+		{"advanceHead", "nextHead", "contiguousHead"},
+		{"recedeTail", "nextTail", "tailHeader"},
+	} {
+		fn, walk := p.Method("store", "Store", spec.fn), p.Method("store", "Store", spec.walk)
+		if !c.Need(fn, id, "store.(*Store)."+spec.fn) || !c.Need(walk, id, "store.(*Store)."+spec.walk) {
+			continue
+		}
+		t, ff := c.T(fn), c.F(fn)
+		wcs := callsTo(fn, walk)
+		n := 0
+		an.Instrs(fn, func(in ssa.Instruction) {
+			call, ok := in.(*ssa.Call)
+			if !ok || !strings.HasSuffix(an.StaticFullName(&call.Call), "atomic.Pointer[T]).Store") || len(call.Call.Args) == 0 || !strings.HasSuffix(an.Stable(t.Of(call.Call.Args[0])), "p0."+spec.field) {
+				return
+			}
+			n++
+			okC := false
+			for _, wc := range wcs {
+				if ff.AtInstr(call).Has(an.B(t.Of(wc) + "#1")) {
+					okC = true
+				}
+			}
+			c.Check(okC, id, "pointer-store-needs-change:"+spec.fn, "the write loop stores the pointer only when its walk found a different header (it never writes back what it loaded before the walk)", fn, call, "", ff.AtInstr(call))
+		})
+		c.Min(id, "pointer stores in "+spec.fn, n, 1)
+	}
+}
+
+// checkPendingAppendKeepsBothMaps (C17.d / C04.a): the pending batch answers by height (headers) and
+// by hash (heights → header). Append writes both entries for every header and removes nothing: a
+// clean-up in Append that deletes a hash entry can delete the one it has just written when the same
+// header is appended twice.
+func checkPendingAppendKeepsBothMaps(c *an.Ctx, id string) {
+	fn := c.P.Method("store", "batch", "Append")
+	if !c.Need(fn, id, "store.(*batch).Append") {
+		return
+	}
+	writes := map[string]int{}
+	deletes := 0
+	an.Instrs(fn, func(in ssa.Instruction) {
+		switch x := in.(type) {
+		case *ssa.MapUpdate:
+			if u, ok := x.Map.(*ssa.UnOp); ok {
+				if fa, isFA := u.X.(*ssa.FieldAddr); isFA {
+					writes[fieldName(fa)]++
+				}
+			}
+		case *ssa.Call:
+			if b, isB := x.Call.Value.(*ssa.Builtin); isB && b.Name() == "delete" {
+				deletes++
+			}
+		}
+	})
+	c.Check(writes["headers"] >= 1 && writes["heights"] >= 1 && deletes == 0, id, "pending-append-writes-both-keeps-all", "appending to the pending batch writes the by-height and the by-hash entry of every header and removes nothing", fn, nil,
+		"map writes: headers="+itoa(writes["headers"])+" heights="+itoa(writes["heights"])+", deletes="+itoa(deletes), nil)
+}
+
 // checkIndexDeletedLast (C08.b): the per-height deletion step finds a header through the height
 // index (hash by height). It removes the header data first and the index entry last: after a failure
 // between the two, the retry still finds the header and completes; in the other order the retry takes
